@@ -110,7 +110,11 @@ type Sched struct {
 	wg       sync.WaitGroup
 	Trace    []Segment
 	Deadlock bool
-	MaxSegs  int // safety cap on the number of segments (0: none)
+	// Killed: tasks were torn down (deadlock, crash, abort). Package-level
+	// state of the code under test may be left half-way (a worker goroutine
+	// gone, a lock held): the process should not be used for further runs.
+	Killed  bool
+	MaxSegs int // safety cap on the number of segments (0: none)
 	// MaxTotalSteps caps the yield sites passed by all tasks of the run
 	// together (0: none). Operations have their own step budget; this one
 	// catches goroutines of the code under test that loop outside any
@@ -126,6 +130,9 @@ type Sched struct {
 	mu      sync.Mutex
 	nRoot   int
 	crashed bool
+	wake    bool
+	sinceWake int
+	graceLeft int
 
 	Switches       int64
 	SwitchesShared int64
@@ -138,7 +145,18 @@ const maxSegment = int64(4_000_000)
 
 var cur *Task // the task that is running; nil outside simulation
 
-var progress atomic.Int64
+// progress is what the stall watchdog looks at. It is a PLAIN counter written
+// and read in //go:norace functions on purpose: an atomic here would be real
+// synchronisation executed by task goroutines (BeginOp runs on them) and
+// would order every task's earlier accesses before every other task's later
+// ones for the race detector.
+var progress int64
+
+//go:norace
+func progressAdd() { progress++ }
+
+//go:norace
+func progressLoad() int64 { return progress }
 var watchdogOnce sync.Once
 var running atomic.Int32
 
@@ -159,7 +177,7 @@ func startWatchdog() {
 					lastChange = time.Now()
 					continue
 				}
-				p := progress.Load()
+				p := progressLoad()
 				if p != last {
 					last = p
 					lastChange = time.Now()
@@ -177,7 +195,7 @@ func startWatchdog() {
 
 // Tick tells the watchdog that the process is alive (called by the harness at
 // the start of every run).
-func Tick() { progress.Add(1) }
+func Tick() { progressAdd() }
 
 //go:norace
 func setCur(t *Task) { cur = t }
@@ -289,7 +307,7 @@ func (t *Task) yield(site uint32, why uint8, child *Task) {
 //
 //go:norace
 func BeginOp(budget int64) {
-	progress.Add(1) // an operation starting is progress as far as the stall watchdog is concerned
+	progress++ // an operation starting is progress as far as the stall watchdog is concerned (plain counter, see above)
 	t := cur
 	if t == nil {
 		return
@@ -345,7 +363,7 @@ func SharedSeen() int64 {
 // NewSched creates a scheduler.
 func NewSched(ch Chooser) *Sched {
 	startWatchdog()
-	return &Sched{ch: ch, back: make(chan event)}
+	return &Sched{ch: ch, back: make(chan event), graceLeft: 250}
 }
 
 //go:norace
@@ -365,6 +383,7 @@ func (s *Sched) body(t *Task, fn func()) {
 			cs.wg.Done()
 		}
 	}()
+	defer func() { t.sched().finish(t) }()
 	raceDisable()
 	code := <-t.wake
 	raceEnable()
@@ -384,7 +403,6 @@ func (s *Sched) body(t *Task, fn func()) {
 			fn()
 		}()
 	}
-	t.sched().finish(t)
 }
 
 //go:norace
@@ -423,6 +441,31 @@ func (s *Sched) adopt() {
 //go:norace
 func Orphans() int { return len(orphans) }
 
+// notify is called by the simulated primitives whenever something happened
+// that can let a waiting task proceed (unlock, counter change, message sent
+// or taken): all tasks count as runnable again, so that the chooser may hand
+// the lock to the waiter before the releasing task runs on.
+//
+//go:norace
+func notify() {
+	t := cur
+	if t == nil || t.s == nil {
+		return
+	}
+	t.s.wake = true
+}
+
+//go:norace
+func (s *Sched) clearBlocked() {
+	for _, t := range s.tasks {
+		t.blocked = false
+	}
+	s.wake = false
+}
+
+//go:norace
+func (s *Sched) wakePending() bool { return s.wake }
+
 //go:norace
 func (s *Sched) setCrashed() { s.crashed = true }
 
@@ -442,7 +485,7 @@ func (s *Sched) finish(t *Task) {
 //go:norace
 func (s *Sched) handoff(t *Task, code int) event {
 	cur = t
-	progress.Add(1)
+	progress++
 	raceDisable()
 	t.wake <- code
 	ev := <-s.back
@@ -463,6 +506,14 @@ func (s *Sched) Run(fns []func()) {
 	var live []int
 	var blk []bool
 	for {
+		// a close() of a real channel, a timer, an atomic flag: not everything
+		// that unblocks a waiter goes through the primitives, so now and then
+		// everybody is treated as runnable and polls its condition again
+		s.sinceWake++
+		if s.wakePending() || s.sinceWake >= 16 {
+			s.clearBlocked()
+			s.sinceWake = 0
+		}
 		live = live[:0]
 		blk = blk[:0]
 		allBlocked := true
@@ -509,6 +560,14 @@ func (s *Sched) Run(fns []func()) {
 					progressMade = true
 					break
 				}
+			}
+			if !progressMade && rootsLive && s.graceLeft > 0 {
+				// channels fed by the Go runtime (timers, contexts) are not
+				// under the simulator's control: give real time a chance
+				// before calling it a deadlock
+				s.graceLeft--
+				time.Sleep(2 * time.Millisecond)
+				continue
 			}
 			if !progressMade {
 				if !rootsLive {
@@ -567,12 +626,20 @@ func (s *Sched) record(t *Task, before int64, ev event) {
 }
 
 func (s *Sched) killAll() {
-	for _, t := range s.tasks {
+	s.Killed = true
+	for k := 0; k < s.numTasks(); k++ { // tasks spawned while unwinding are appended and seen too
+		t := s.taskAt(k)
 		for i := 0; !t.isDone() && i < 1000; i++ {
 			s.handoff(t, 2)
 		}
 	}
 }
+
+//go:norace
+func (s *Sched) numTasks() int { return len(s.tasks) }
+
+//go:norace
+func (s *Sched) taskAt(k int) *Task { return s.tasks[k] }
 
 // Go starts fn as a child task of the running simulation (the instrumenter
 // rewrites every go statement of the code under test into a call of Go).
@@ -602,4 +669,15 @@ func (s *Sched) TaskSteps() []int64 {
 		out[i] = t.stepsNow()
 	}
 	return out
+}
+
+// Gosched replaces runtime.Gosched in the code under test: the task steps
+// aside and counts as waiting until the scheduler comes back to it, so that a
+// spin-wait lets the task it is waiting for run whatever the strategy.
+func Gosched() {
+	t := getCur()
+	if t == nil {
+		return
+	}
+	t.yield(SitePrimBase+28, WhyBlocked, nil)
 }
